@@ -21,7 +21,7 @@ import (
 func TestMain(m *testing.M) { vfx.Main(m) }
 
 type Mod struct {
-	Kind  string // identity | bitflip | setbyte | truncate | extend | splice | header-label | aad-label | foreign-key | removed-key | unknown-key-added | secondary-key | plaintext | double-seal
+	Kind  string // identity | bitflip | setbyte | truncate | extend | splice | header-label | aad-label | foreign-key | removed-key | removed-key-midstream | key-added-midstream | unknown-key-added | secondary-key | plaintext | double-seal
 	Pos   int    `json:",omitempty"` // per-mille of the length (bitflip/setbyte/truncate/splice)
 	Field string `json:",omitempty"` // bitflip target: any | version | nonce | body | tag | lenprefix | typebyte | label
 	Bit   int    `json:",omitempty"`
@@ -45,7 +45,7 @@ func genPlan(t *rapid.T) Plan {
 	p := Plan{Seed: 1, Label: rapid.SampledFrom([]string{"", "lbl"}).Draw(t, "label"), PV: uint8(rapid.SampledFrom([]int{2, 2, 1}).Draw(t, "pv")),
 		G: rapid.IntRange(0, len(corpus)-1).Draw(t, "g")}
 	m := Mod{Kind: rapid.SampledFrom([]string{"bitflip", "bitflip", "bitflip", "bitflip", "setbyte", "truncate", "extend", "splice", "header-label", "aad-label",
-		"foreign-key", "removed-key", "unknown-key-added", "secondary-key", "plaintext", "double-seal", "identity", "version-flip", "version-flip"}).Draw(t, "mod")}
+		"foreign-key", "removed-key", "removed-key-midstream", "removed-key-midstream", "key-added-midstream", "unknown-key-added", "secondary-key", "plaintext", "double-seal", "identity", "version-flip", "version-flip"}).Draw(t, "mod")}
 	m.Pos = rapid.IntRange(0, 999).Draw(t, "pos")
 	m.Field = rapid.SampledFrom([]string{"any", "version", "nonce", "body", "tag", "lenprefix", "typebyte", "label"}).Draw(t, "field")
 	m.Bit = rapid.IntRange(0, 7).Draw(t, "bit")
@@ -68,7 +68,13 @@ type cacheKey struct {
 
 var cache = map[cacheKey]hostile.Outcome{}
 
+// a stream delivery in two parts with a keyring operation in between (set by runPlan, consumed by the next deliver)
+var midSplit = -1
+var midOp func(w *hostile.World)
+
 func deliver(pl Plan, raw []byte, stream bool, prep func(w *hostile.World)) (o hostile.Outcome, err error) {
+	split, mid := midSplit, midOp
+	midSplit, midOp = -1, nil
 	synctest.Test(theT, func(t *testing.T) {
 		w, e := hostile.NewWorld(pl.Seed, hostile.Cfg{Label: pl.Label, Encrypt: true, PV: pl.PV})
 		if e != nil {
@@ -81,6 +87,10 @@ func deliver(pl Plan, raw []byte, stream bool, prep func(w *hostile.World)) (o h
 		}
 		if raw == nil {
 			o, err = w.Deliver(nil, false)
+			return
+		}
+		if stream && split >= 0 && mid != nil {
+			o, err = w.DeliverSplit(raw, split, func() { mid(w) })
 			return
 		}
 		o, err = w.Deliver(raw, stream)
@@ -268,6 +278,37 @@ func runPlan(pl Plan) (res vfx.Result) {
 			}
 		}
 		mustBeNothing = true
+	case "removed-key-midstream", "key-added-midstream":
+		// rotation racing a stream: the first part (up to the label header, the type byte, the length prefix, or into
+		// the body) has been read by the node when the key is removed / installed; the rest arrives afterwards
+		k, op := hostile.KeyB, "removed"
+		if m.Kind == "key-added-midstream" {
+			k, op = hostile.KeyForeign, "installed"
+		}
+		mod = seal(g.Plain, g.Stream, k, vsn, pl.Label, pl.Label, 7)
+		kk := k
+		if !g.Stream {
+			// packets arrive whole: the operation precedes the delivery
+			prep = func(w *hostile.World) {
+				if op == "removed" {
+					_ = w.P.MC.Keyring.RemoveKey(kk)
+				} else {
+					_ = w.P.MC.Keyring.AddKey(kk)
+				}
+			}
+		} else {
+			cuts := []int{lay.hdr, lay.typeByte + 1, lay.lenPrefix + 2, lay.version, lay.nonce + 5, lay.body + (lay.tag-lay.body)/2, len(mod) - 1}
+			midSplit = cuts[m.Pos%len(cuts)]
+			midOp = func(w *hostile.World) {
+				if op == "removed" {
+					_ = w.P.MC.Keyring.RemoveKey(kk)
+				} else {
+					_ = w.P.MC.Keyring.AddKey(kk)
+				}
+			}
+			desc = fmt.Sprintf("sealed under a key %s after the first %d of %d bytes of the stream were read", op, midSplit, len(mod))
+		}
+		mustBeNothing = op == "removed"
 	case "unknown-key-added":
 		// sealed under a key that is installed only after sealing: may be accepted (then exactly as genuine)
 		mod = seal(g.Plain, g.Stream, hostile.KeyForeign, vsn, pl.Label, pl.Label, 7)
